@@ -86,6 +86,25 @@ def gen_cases(tier, seed):
             cases.append({"kind": "transform", "cfg": cfg, "policy": "randn0.3", "mode": "eval", "seed": env.subseed(seed, "c16bounded", k),
                           "world": "f64", "tier_": tier, "cost": 3})
             k += 1
+    # FROZEN conditioners / layers (requires_grad False on every parameter of the transform, or on every other parameter tensor): the
+    # gradient with respect to inputs and context - the score of a frozen model, or the path to earlier trainable layers - and the
+    # gradients of the parameters that stay trainable must still be right (UMNN left out: its third-party integrator raises when a
+    # parameter is frozen)
+    k = 0
+    for fam in ("coupling_affine", "coupling_additive", "coupling_rq", "coupling_quadratic", "ar_affine", "ar_rq", "lu", "actnorm", "composite"):
+        for frz in ("all", "alternate"):
+            if tier == "quick" and fam not in ("coupling_affine", "coupling_rq", "ar_affine", "composite") and frz == "alternate":
+                continue
+            for rep in range(1 if tier == "quick" else 8):
+                cfg = _smooth(zoo.FAM[fam].sample_cfg(rng, tier))
+                if "umnn" in str(cfg):
+                    continue
+                cfg.pop("dropout", None)
+                if fam.startswith("coupling_") and rep % 2 == 0:
+                    cfg["ctx"] = 2
+                cases.append({"kind": "transform", "cfg": cfg, "policy": "randn0.3", "mode": "eval", "freeze": frz,
+                              "seed": env.subseed(seed, "c16frz", k), "world": "f64", "tier_": tier, "cost": 3})
+                k += 1
     # the affine coupling's GENERAL scale activation is capped at 3: where the cap is active the scale does not depend on the
     # conditioner any more (its gradient there is zero) - conditioner outputs pushed to about 5
     for i in range(3 if tier == "quick" else 20):
@@ -254,6 +273,11 @@ def run_case(case):
             r.count("inference_mode_first_calls")
         except Exception:
             r.count("inference_mode_first_calls_raised")
+    if case.get("freeze"):
+        for pi_, (_, p_) in enumerate(model.named_parameters()):
+            if case["freeze"] == "all" or pi_ % 2 == 0:
+                p_.requires_grad_(False)
+        r.count("frozen_subjects")
     params = [(n, p) for n, p in model.named_parameters() if p.requires_grad]
     for direction in dirs:
         for attempt in range(3):
